@@ -90,6 +90,17 @@ func kFaulty(plan kPlan, run kRun) (faulty bool, deadlineFired bool) {
 func kOwnReply(plan kPlan, obs *kObs, op *kOp, r *kResult, pos kPos, rr rueidis.RedisResult, faulty bool) (clause, detail string) {
 	nre := rr.NonRedisError()
 	if nre != nil && !sim.IsReplyError(nre) { // the cache paths hand error replies over as errors
+		if errors.Is(nre, rueidis.ErrDoCacheAborted) && pos.Role == "cmd" {
+			// a topology event between the PTTL and the GET of the client's cache transaction (they travel in one burst,
+			// but the server may take time between them): PTTL was refused, GET was queued, EXEC aborted, and there is
+			// no reply to the GET itself that could be handed over. A tie between a command and an event: accepted.
+			if ss := obs.Sends[pos.Cmd.UID]; len(ss) > 0 {
+				last := ss[len(ss)-1]
+				if last.Span != nil && last.R.Reply != nil && !last.R.Reply.IsErr() && last.Span.Exec != nil && last.Span.Exec.Reply != nil && last.Span.Exec.Reply.IsErr() {
+					return "", ""
+				}
+			}
+		}
 		switch {
 		case isCtxErr(nre) && op.DeadlineUs > 0, faulty:
 			return "", ""
